@@ -4,7 +4,7 @@ from pyvc.contracts import Registry
 
 def build_registry() -> Registry:
     reg = Registry()
-    from . import c_icao, c_wmo, c_data, c_utils, c_scaler, lemmas
-    for mod in (lemmas, c_icao, c_wmo, c_data, c_utils, c_scaler):
+    from . import c_icao, c_wmo, c_data, c_utils, c_scaler, c_screen, lemmas
+    for mod in (lemmas, c_icao, c_wmo, c_data, c_utils, c_scaler, c_screen):
         mod.register(reg)
     return reg
